@@ -108,7 +108,7 @@ def gen_program(rng, n):
     while len(prog) < n:
         w = rng.choice(["NewNote", "NoteUpd", "Concat", "Concat", "MelMap", "MelRepeat", "MelSlice", "NoteToMelody", "NewChord", "ChordCall",
                         "ChordCall", "ChordUpd", "ChordAdd", "ScoreOf", "ScoreAddChord", "ScoreAddScore", "ScoreIndex", "ScoreSlice", "ScoreMap",
-                        "EditFirstNotes", "NewTon", "ScoreRepeat"])
+                        "EditFirstNotes", "NewTon", "ScoreRepeat", "ChordRepeat", "NoteRepeat"])
         if w == "NewNote":
             add({"op": w, "n": rnote(rng)}, "note")
         elif w == "NewTon":
@@ -151,6 +151,10 @@ def gen_program(rng, n):
             add({"op": w, "s": pick("score"), "i": i, "j": i + rng.randrange(1, 3)}, "score")
         elif w == "ScoreMap" and pick("score") is not None:
             add({"op": w, "s": pick("score"), "u": rng.choice([["UCopy"], ["UAmp", rng.choice([30, 90])]])}, "score")
+        elif w == "ChordRepeat" and pick("chord") is not None:
+            add({"op": w, "c": pick("chord"), "k": rng.choice([1, 2, 3, 0])}, "score")
+        elif w == "NoteRepeat" and pick("note") is not None:
+            add({"op": w, "a": pick("note"), "k": rng.choice([1, 2, 3, 0])}, "mel")
         elif w == "ScoreRepeat" and pick("score") is not None:
             add({"op": w, "s": pick("score"), "k": rng.choice([1, 1, 2, 3, 0])}, "score")
         elif w == "EditFirstNotes" and pick("score") is not None:
@@ -231,6 +235,10 @@ def run_op(op, pool):
         return apply_upd(g("s"), op["u"])
     if w == "ScoreRepeat":
         return g("s") * op["k"]
+    if w == "ChordRepeat":
+        return g("c") * op["k"]
+    if w == "NoteRepeat":
+        return g("a") * op["k"]
     if w == "EditFirstNotes":
         import numpy as np
         from musiclang.transform import VoiceLeading
@@ -347,6 +355,10 @@ def coq_op(op, extra):
         return f"(ScoreMap {N(op['s'])} {coq_upd(op['u'])})"
     if w == "ScoreRepeat":
         return f"(ScoreRepeat {N(op['s'])} {N(op['k'])})"
+    if w == "ChordRepeat":
+        return f"(ChordRepeat {N(op['c'])} {N(op['k'])})"
+    if w == "NoteRepeat":
+        return f"(NoteRepeat {N(op['a'])} {N(op['k'])})"
     if w == "EditFirstNotes":
         return f"(EditFirstNotes {N(op['s'])} {L([L([T(Z(v), Z(o)) for v, o in ch]) for ch in extra])})"
     raise ValueError(w)
